@@ -131,7 +131,7 @@ pub open spec fn est_liq_b(p0: int, p1: int, x: int) -> int { (x * Q()) / abs_di
     ensures
         est_liq_a(sqrt_price_0 as int, sqrt_price_1 as int, token_amount_a as int) <= U128MAX() ==> r == Ok::<u128, ErrorCode>(est_liq_a(sqrt_price_0 as int, sqrt_price_1 as int, token_amount_a as int) as u128),
         est_liq_a(sqrt_price_0 as int, sqrt_price_1 as int, token_amount_a as int) > U128MAX() ==> r is Err,
-//@ inject before /let numerator_x128 = /
+//@ inject after /let sqrt_price_diff = sqrt_price_upper - sqrt_price_lower;/
     proof {
         let pu = sqrt_price_upper as int; let pl = sqrt_price_lower as int; let x = token_amount_a as int;
         assert(0 <= pu * pl <= MAX_PRICE() * MAX_PRICE()) by(nonlinear_arith) requires 0 <= pu <= MAX_PRICE(), 0 <= pl <= MAX_PRICE();
